@@ -316,8 +316,35 @@ def sqlite_rt(case):
   tmp = tempfile.mkdtemp(prefix='c16_')
   try:
     path = os.path.join(tmp, 'd.sqlite')
-    with sq.SQLiteFederatedDataBuilder(path) as b:
-      b.add_many([(cid, table[cid]) for cid in ids])
+    how = case.get('how', 'with')
+    items = [(cid, table[cid]) for cid in ids]
+    keep_open = None
+    if how == 'with':
+      with sq.SQLiteFederatedDataBuilder(path) as b:
+        b.add_many(items)
+    elif how == 'two_calls':
+      with sq.SQLiteFederatedDataBuilder(path) as b:
+        b.add_many(iter(items[:1]))
+        b.add_many(x for x in items[1:])
+    elif how == 'read_while_open':
+      # what add_many has returned for is in the file: a reader opened while the builder is still open sees it
+      keep_open = sq.SQLiteFederatedDataBuilder(path)
+      keep_open.add_many(items)
+    elif how == 'later_failure':
+      # a later step of the build fails (duplicate client id): what the earlier add_many calls wrote stays written
+      try:
+        with sq.SQLiteFederatedDataBuilder(path) as b:
+          b.add_many(items)
+          b.add_many(items[:1])
+        raise Violation('adding a client id twice was accepted silently')
+      except Violation:
+        raise
+      except Exception:  # pylint: disable=broad-except
+        pass
+    elif how == 'no_with':
+      b = sq.SQLiteFederatedDataBuilder(path)
+      b.add_many(items)
+      del b
     fd = sq.SQLiteFederatedData.new(path)
     got_ids = list(fd.client_ids())
     require(sorted(got_ids) == sorted(ids) and len(got_ids) == len(ids), 'client ids differ', sorted(ids), got_ids)
@@ -339,9 +366,11 @@ def sqlite_rt(case):
       same_leaf(dict(table[cid]), dict(fd.get_client(cid).raw_examples), path='get ' + repr(cid))
       require(fd.client_size(cid) == sizes[ids.index(cid)], 'client_size differs')
     fd._connection.close()
+    if keep_open is not None:
+      keep_open.__exit__(None, None, None)
   finally:
     shutil.rmtree(tmp, ignore_errors=True)
-  return {'outcome': [case['dtype'], sizes], 'nontrivial': 0 in sizes or case['swapped'] or case['layout'] != 'C'}
+  return {'outcome': [case['dtype'], sizes, case.get('how', 'with')], 'nontrivial': 0 in sizes or case['swapped'] or case['layout'] != 'C'}
 
 
 def state_rt(case):
@@ -362,7 +391,8 @@ def state_rt(case):
       state = fed_avg.ServerState(params, opt.init(params))
     elif kind == 'plain':
       state = {'a': make_array(case['dtype'], (2, 3), 'F', case['swapped']), 'l': [1, 2.5, b'x', 's', (1, 2)],
-               'j': jnp.arange(4, dtype=jnp.bfloat16)}
+               'j': jnp.arange(4, dtype=jnp.bfloat16), 'weak_f': jnp.asarray(0.9), 'weak_i': jnp.asarray(3),
+               'strong_f': jnp.asarray(0.9, jnp.float32)}
     else:
       raise AssertionError(kind)
     path = os.path.join(tmp, 'state')
@@ -376,6 +406,10 @@ def state_rt(case):
       if isinstance(u, (np.ndarray, jax.Array, np.generic)):
         cu, cv = canon(np.asarray(u)), canon(np.asarray(v))
         require(cu == cv, 'leaf of the loaded state differs', np.asarray(u).tolist(), np.asarray(v).tolist())
+        # a JAX array also carries a weak-type flag that decides the dtype of what is computed from it
+        require(bool(getattr(u, 'weak_type', False)) == bool(getattr(v, 'weak_type', False)),
+                'the weak-type flag of a JAX array leaf is not restored', bool(getattr(u, 'weak_type', False)),
+                bool(getattr(v, 'weak_type', False)))
       else:
         require(type(u) is type(v) and u == v, 'leaf differs', repr(u), repr(v))
   finally:
@@ -475,7 +509,11 @@ def plan(ctx):
                         for ids in idsets for o in (0, 1) for d in (DTYPES if th else ['int32', 'float16', 'bfloat16',
                                                                                         'complex64', 'bool', 'uint64'])
                         for l in ('C', 'F', 'strided') for sw in (False, True)
-                        if not (sw and d in ('bfloat16', 'bool', 'int8', 'uint8'))])
+                        if not (sw and d in ('bfloat16', 'bool', 'int8', 'uint8'))] +
+          # histories of the builder: several add_many calls, a reader while the builder is open, a later failing step,
+          # a builder used without `with`
+          [{'ids': ids, 'sizes': [(i * 2 + 1) % 4 for i in range(len(ids))], 'dtype': 'float32', 'layout': 'C', 'swapped': False,
+            'how': how} for ids in idsets for how in ('two_calls', 'read_while_open', 'later_failure', 'no_with')])
   ctx.run('aborted_deserialize', [{'which': w, 'cut': c} for w in range(4) for c in (0.1, 0.5, 0.9)])
   ctx.run('checkpoint_api', [{'keep': k, 'depth': 3 if th else 2} for k in (1, 2, 3)])
   ctx.run('state_rt', [{'kind': 'fedavg', 'opt': o} for o in ('sgd', 'adam', 'mom')] +
